@@ -206,79 +206,84 @@ def notifyLoop (rec : Rec) (k : Key) (old new : Option Int) :
         | some (s1, .err e) => some (s1, .error e)
         | some (s1, .ok _) => notifyLoop rec k old new xs (act ++ [x]) s1
 
-def stepF (rec : Rec) : Task → St → Option (St × R)
-  | .notify k old new, s =>
-    match notifyLoop rec k old new ((s.regs k.1).subs k.2 .change) [] s with
+/-- `HasObservables.notify` + `_mesa_notify` for the `change` signal of key `k` -/
+def notifyT (rec : Rec) (k : Key) (old new : Option Int) (s : St) : Option (St × R) :=
+  match notifyLoop rec k old new ((s.regs k.1).subs k.2 .change) [] s with
+  | none => none
+  | some (s1, .error e) => some (s1, .err e)
+  | some (s1, .ok act) => some (s1.setReg k.1 ((s1.regs k.1).setSubs k.2 .change act), .ok 0)
+
+/-- `Observable.__set__`: cycle check, notify, store, clear PROCESSING_SIGNALS -/
+def assignT (rec : Rec) (k : Key) (v : Int) (s : St) : Option (St × R) :=
+  if s.cur.isSome ∧ s.proc.contains k then some (s, .err .value)
+  else
+    match rec (.notify k (some (s.store k)) (some v)) s with
     | none => none
-    | some (s1, .error e) => some (s1, .err e)
-    | some (s1, .ok act) => some (s1.setReg k.1 ((s1.regs k.1).setSubs k.2 .change act), .ok 0)
-  | .assign k v, s =>
-    -- `Observable.__set__`: cycle check, notify, store, clear PROCESSING_SIGNALS
-    if s.cur.isSome ∧ s.proc.contains k then some (s, .err .value)
+    | some (s1, .err e) => some (s1, .err e)
+    | some (s1, .ok _) =>
+      some ({ s1 with store := fun k' => if k' = k then v else s1.store k', proc := [] }, .ok 0)
+
+/-- the re-evaluation branch of `Computed.__call__`: forget the parents, run the function with
+    `CURRENT_COMPUTED = c` (restored in `finally`), store the value, become clean -/
+def evalBody (rec : Rec) (c : Nat) (tree : Tree) (saved : Option Nat) (s1 : St) : Option (St × R) :=
+  let s2 := removeParents s1 c
+  match s2.comps c with
+  | none => some (s2, .err .attr)
+  | some x2 =>
+    let s3 := { (s2.setComp c { x2 with evals := x2.evals + 1 }) with cur := some c }
+    match evalTree rec tree s3 with
+    | none => none
+    | some (s4, .err e) => some ({ s4 with cur := saved }, .err e)
+    | some (s4, .ok v) =>
+      match s4.comps c with
+      | none => some (s4, .err .attr)
+      | some x4 => some ({ (s4.setComp c { x4 with value := some v, dirty := false }) with cur := saved }, .ok v)
+
+/-- `Computed.__call__` of the Computed `c` whose record is `x` -/
+def callC (rec : Rec) (c : Nat) (x : Comp) (s : St) : Option (St × R) :=
+  if !x.dirty then some (s, match x.value with | some v => .ok v | none => .err .noneVal)
+  else
+    let s0 := s.setComp c { x with first := false }
+    if x.first then evalBody rec c x.tree s.cur s0
     else
-      match rec (.notify k (some (s.store k)) (some v)) s with
+      -- the pre-check, outside the enclosing evaluation (G9 repaired)
+      match precheck rec x.parents { s0 with cur := none } with
       | none => none
-      | some (s1, .err e) => some (s1, .err e)
-      | some (s1, .ok _) =>
-        some ({ s1 with store := fun k' => if k' = k then v else s1.store k', proc := [] }, .ok 0)
-  | .readC c, s =>
-    -- `Computable.__get__` with `Computed.__call__` inlined
-    match s.comps c with
-    | none => some (s, .err .attr)
-    | some x =>
-      let old := x.value
-      -- Computed.__call__ --------------------------------------------------------------
-      let called : Option (St × R) :=
-        if !x.dirty then some (s, match x.value with | some v => .ok v | none => .err .noneVal)
-        else
-          let s0 := s.setComp c { x with first := false }
-          -- pre-check (not on the first evaluation), outside the enclosing evaluation (G9 repaired)
-          let pre : Option (St × Except Err Bool) :=
-            if x.first then some (s0, .ok true)
-            else
-              match precheck rec x.parents { s0 with cur := none } with
-              | none => none
-              | some (s1, r) => some ({ s1 with cur := s.cur }, r)
-          match pre with
+      | some (s1, .error e) => some ({ s1 with cur := s.cur }, .err e)
+      | some (s1, .ok true) => evalBody rec c x.tree s.cur { s1 with cur := s.cur }
+      | some (s1, .ok false) =>
+        match s1.comps c with
+        | none => some ({ s1 with cur := s.cur }, .err .attr)
+        | some x1 => some ({ (s1.setComp c { x1 with dirty := false }) with cur := s.cur },
+            match x1.value with | some v => .ok v | none => .err .noneVal)
+
+/-- `Computable.__get__` -/
+def getC (rec : Rec) (c : Nat) (s : St) : Option (St × R) :=
+  match s.comps c with
+  | none => some (s, .err .attr)
+  | some x =>
+    match callC rec c x s with
+    | none => none
+    | some (s1, .err e) => some (s1, .err e)
+    | some (s1, .ok new) =>
+      -- G8 repaired: the evaluating Computed remembers the value it is handed
+      let added : St × R := match s1.cur with
+        | none => (s1, .ok 0)
+        | some p => addParent s1 p (.comp c) new
+      match added with
+      | (s2, .err e) => some (s2, .err e)
+      | (s2, .ok _) =>
+        if some new ≠ x.value then
+          match rec (.notify (x.owner, x.name) x.value (some new)) s2 with
           | none => none
-          | some (s1, .error e) => some (s1, .err e)
-          | some (s1, .ok changed) =>
-            if changed then
-              let s2 := removeParents s1 c
-              match s2.comps c with
-              | none => some (s2, .err .attr)
-              | some x2 =>
-                let s3 := { (s2.setComp c { x2 with evals := x2.evals + 1 }) with cur := some c }
-                match evalTree rec x.tree s3 with
-                | none => none
-                | some (s4, .err e) => some ({ s4 with cur := s.cur }, .err e)
-                | some (s4, .ok v) =>
-                  match s4.comps c with
-                  | none => some (s4, .err .attr)
-                  | some x4 => some ({ (s4.setComp c { x4 with value := some v, dirty := false }) with cur := s.cur }, .ok v)
-            else
-              match s1.comps c with
-              | none => some (s1, .err .attr)
-              | some x1 => some (s1.setComp c { x1 with dirty := false },
-                  match x1.value with | some v => .ok v | none => .err .noneVal)
-      -- back in Computable.__get__ -----------------------------------------------------------
-      match called with
-      | none => none
-      | some (s1, .err e) => some (s1, .err e)
-      | some (s1, .ok new) =>
-        -- G8 repaired: the evaluating Computed remembers the value it is handed
-        let added : St × R := match s1.cur with
-          | none => (s1, .ok 0)
-          | some p => addParent s1 p (.comp c) new
-        match added with
-        | (s2, .err e) => some (s2, .err e)
-        | (s2, .ok _) =>
-          if some new ≠ old then
-            match rec (.notify (x.owner, x.name) old (some new)) s2 with
-            | none => none
-            | some (s3, .err e) => some (s3, .err e)
-            | some (s3, .ok _) => some (s3, .ok new)
-          else some (s2, .ok new)
+          | some (s3, .err e) => some (s3, .err e)
+          | some (s3, .ok _) => some (s3, .ok new)
+        else some (s2, .ok new)
+
+def stepF (rec : Rec) : Task → St → Option (St × R)
+  | .notify k old new, s => notifyT rec k old new s
+  | .assign k v, s => assignT rec k v s
+  | .readC c, s => getC rec c s
 
 def exec : Nat → Task → St → Option (St × R)
   | 0 => fun _ _ => none
